@@ -1,44 +1,44 @@
 /-
 Model of the inode numbering in `lib/fstree/src/post_process.c`: `alloc_inode_num_dfs` (sub-directories first,
 then the children of the directory itself, hard-link entries skipped) and the root's number assigned last in
-`fstree_post_process`.  `reorder_hard_links` (which afterwards rotates hard-link targets in front of the first
-directory that links them) is **not** modelled: the theorems speak about trees as numbered by the DFS; on images
-with hard links the validator checks "exactly 1..N" on the real output instead.
+`fstree_post_process`; then `map_inodes_dfs` + `reorder_hard_links`, which rotates the target of a hard link in front
+of the first directory (in inode order) that links it (`Slot`, `rotate`, `reorderDir`, `reorderGo`, `postProcess`).
 
-A tree node is a regular inode (`file`: anything that is not a directory), a hard-link entry (`hlink`, shares its
-target's inode, gets no number) or a directory with its (name-sorted) children.  Structural recursion (mutual, over
+A tree node is a regular inode (`file`: anything that is not a directory), a hard-link entry (`hlink k`: shares the
+inode of its target, gets no number; the target is the `k`-th `file` of the tree in list (pre-)order — hard links to
+directories are refused by `resolve_link`) or a directory with its (name-sorted) children.  Structural recursion (mutual, over
 the nested inductive), so the definitions reduce under `decide`.
 -/
 namespace Sqfs.Numbering
 
 inductive Tree where
   | file : Tree
-  | hlink : Tree
+  | hlink (target : Nat) : Tree
   | dir : List Tree → Tree
   deriving Repr
 
 inductive NTree where
   | file (n : Nat) : NTree
-  | hlink : NTree
+  | hlink (target : Nat) : NTree
   | dir (n : Nat) (cs : List NTree) : NTree
   deriving Repr
 
 inductive PTree where
   | file : PTree
-  | hlink : PTree
+  | hlink (target : Nat) : PTree
   | dir (cs : List NTree) : PTree
   deriving Repr
 
 def step2 : List PTree → Nat → List NTree × Nat
   | [], n => ([], n)
   | .file :: rest, n => let r := step2 rest (n + 1); (.file (n + 1) :: r.1, r.2)
-  | .hlink :: rest, n => let r := step2 rest n; (.hlink :: r.1, r.2)
+  | .hlink k :: rest, n => let r := step2 rest n; (.hlink k :: r.1, r.2)
   | .dir cs :: rest, n => let r := step2 rest (n + 1); (.dir (n + 1) cs :: r.1, r.2)
 
 mutual
 def allocT : Tree → Nat → PTree × Nat
   | .file, n => (.file, n)
-  | .hlink, n => (.hlink, n)
+  | .hlink k, n => (.hlink k, n)
   | .dir cs, n =>
     let a := allocL cs n
     let b := step2 a.1 a.2
@@ -59,7 +59,7 @@ def numberRoot (cs : List Tree) : NTree × Nat :=
 mutual
 def numsT : NTree → List Nat
   | .file n => [n]
-  | .hlink => []
+  | .hlink _ => []
   | .dir n cs => numsL cs ++ [n]
 def numsL : List NTree → List Nat
   | [] => []
@@ -68,11 +68,103 @@ end
 
 def pnumsT : PTree → List Nat
   | .file => []
-  | .hlink => []
+  | .hlink _ => []
   | .dir cs => numsL cs
 
 def pnumsL : List PTree → List Nat
   | [] => []
   | t :: r => pnumsT t ++ pnumsL r
+
+/-! ### `map_inodes_dfs` + `reorder_hard_links` (post_process.c:89-138) -/
+
+/-- one slot of `fs->inodes`: the node (named by the number the DFS gave it) and its current `inode_num` field -/
+structure Slot where
+  id : Nat
+  num : Nat
+  deriving Repr, DecidableEq
+
+/-- the `for (j = tgt_idx; j > i; --j)` loop and the two assignments after it (post_process.c:125-134): the slots
+`i .. tgtIdx-1` move up by one (their `inode_num` incremented), the target lands in slot `i` with number `i + 1` -/
+def rotate (arr : List Slot) (i tgtIdx : Nat) : List Slot :=
+  match arr[tgtIdx]? with
+  | none => arr
+  | some tgt =>
+    arr.take i ++ (⟨tgt.id, i + 1⟩ :: (((arr.drop i).take (tgtIdx - i)).map (fun s => ⟨s.id, s.num + 1⟩) ++ arr.drop (tgtIdx + 1)))
+
+/-- the loop over the children of the directory in slot `i` (post_process.c:113-136); `links` = the nodes its
+hard-link children point to, in child order.  `tgt->inode_num` is read from the node itself. -/
+def reorderDir : List Nat → List Slot → Nat → List Slot × Nat
+  | [], arr, i => (arr, i)
+  | t :: rest, arr, i =>
+    match arr.find? (·.id == t) with
+    | none => reorderDir rest arr i
+    | some s =>
+      if s.num - 1 ≤ i then reorderDir rest arr i                    -- :122
+      else reorderDir rest (rotate arr i (s.num - 1)) (i + 1)        -- :125-135
+
+/-- the outer loop (post_process.c:107-137); `linksOf id` = `none` for a non-directory -/
+def reorderGo (linksOf : Nat → Option (List Nat)) : Nat → List Slot → Nat → List Slot
+  | 0, arr, _ => arr
+  | f + 1, arr, i =>
+    match arr[i]? with
+    | none => arr
+    | some s =>
+      match linksOf s.id with
+      | none => reorderGo linksOf f arr (i + 1)
+      | some links =>
+        let r := reorderDir links arr i
+        reorderGo linksOf f r.1 (r.2 + 1)
+
+mutual
+/-- the numbers of the `file` nodes in list (pre-)order: what a hard link's `target` indexes -/
+def filesT : NTree → List Nat
+  | .file n => [n]
+  | .hlink _ => []
+  | .dir _ cs => filesL cs
+def filesL : List NTree → List Nat
+  | [] => []
+  | t :: r => filesT t ++ filesL r
+end
+
+/-- the nodes the hard-link children of a directory point to, in child order (`it->data.target_node`) -/
+def linkTargets (files : List Nat) : List NTree → List Nat
+  | [] => []
+  | .hlink k :: r => files.getD k 0 :: linkTargets files r
+  | _ :: r => linkTargets files r
+
+mutual
+/-- every directory (by its DFS number) with the targets of its hard-link children -/
+def dirsT (files : List Nat) : NTree → List (Nat × List Nat)
+  | .file _ => []
+  | .hlink _ => []
+  | .dir n cs => (n, linkTargets files cs) :: dirsL files cs
+def dirsL (files : List Nat) : List NTree → List (Nat × List Nat)
+  | [] => []
+  | t :: r => dirsT files t ++ dirsL files r
+end
+
+/-- `fs->inodes` after `map_inodes_dfs`: slot `k` holds the node numbered `k + 1` -/
+def initialSlots (count : Nat) : List Slot := (List.range' 1 count).map (fun n => ⟨n, n⟩)
+
+/-- `fs->inodes` at the end of `fstree_post_process`: in slot order the nodes (named by their DFS number) with their
+final `inode_num` -/
+def postProcess (cs : List Tree) : List Slot :=
+  let r := numberRoot cs
+  let dirs := dirsT (filesT r.1) r.1
+  reorderGo (fun id => (dirs.find? (·.1 == id)).map (·.2)) (r.2 + 1) (initialSlots r.2) 0
+
+/-- final `inode_num` of the node the DFS numbered `id` -/
+def finalNum (arr : List Slot) (id : Nat) : Nat := ((arr.find? (·.id == id)).map (·.num)).getD 0
+
+mutual
+/-- the tree with the final numbers -/
+def renumT (arr : List Slot) : NTree → NTree
+  | .file n => .file (finalNum arr n)
+  | .hlink k => .hlink k
+  | .dir n cs => .dir (finalNum arr n) (renumL arr cs)
+def renumL (arr : List Slot) : List NTree → List NTree
+  | [] => []
+  | t :: r => renumT arr t :: renumL arr r
+end
 
 end Sqfs.Numbering
